@@ -66,7 +66,10 @@ unknown_names = st.one_of(
 body_lines = st.one_of(
     st.sampled_from(["{", " }", "}}", "[Song]", "  0 = N 0 0", "  0 = B 1", "  Resolution = 1",
                      "", "  ", "[ExpertSingle]", "  0 = E \"x\"", "garbage", "\x1a", "garbage \x1a more", "\x00",
-                     "} // x", "  }", "}\x1a", "// }", "# }", "{ }"]),
+                     "} // x", "  }", "}\x1a", "// }", "# }", "{ }",
+                     # structural-looking lines behind a character that is neither a blank nor a line end
+                     "\ufeff}", "\ufeff{", "\ufeff[Song]", "\ufeff[ExpertSingle]", "\ufeff  0 = N 0 0", "\u200b}",
+                     "\x00}", "}\ufeff", "\ufeff"]),
     st.text(alphabet=name_chars, max_size=20),
 ).filter(lambda s: s != "}")
 
